@@ -25,6 +25,9 @@ func (n *RawNode) Unicast(ctx context.Context, d CallData, opts ...CallOption) {
 	replyChan := make(chan response, 1)
 	n.channel.enqueue(req, replyChan, false)
 	// channel sends an empty reply on replyChan when the message has been sent
-	// wait until the message has been sent
-	<-replyChan
+	// wait until the message has been sent, or the context has ended
+	select {
+	case <-replyChan:
+	case <-ctx.Done():
+	}
 }
